@@ -27,6 +27,11 @@ OPS = {'eq': operator.eq, 'ne': operator.ne, 'lt': operator.lt, 'le': operator.l
 FIELDS = ('a', 'b', 's', 'flag', 'items', 't', 'ref')
 
 
+@dataclass(eq=False, repr=False)
+class _KwBase:
+    w: object = field(default=None, kw_only=True)
+
+
 class _Methods:
     """The fixed method repertoire of every generated class (mirrored in PyPrim.lean: callM)."""
 
@@ -106,8 +111,10 @@ class Built:
     def _make_classes(self):
         for name, base in self.case['classes']:
             if base == '-':
+                # like the library's own test datasets: a base with a KEYWORD-ONLY field, declared before the
+                # regular fields of the class (dataclasses.fields order != __init__ parameter order)
                 cls = make_dataclass(name, [(f, object, field(default=None)) for f in FIELDS],
-                                     bases=(_Methods,), eq=False, repr=False)
+                                     bases=(_KwBase, _Methods), eq=False, repr=False)
             else:
                 cls = dataclass(eq=False, repr=False)(type(name, (self.classes[base],), {}))
             self.classes[name] = symbol(cls)
@@ -272,7 +279,9 @@ class Built:
             if case.get('forall'):
                 u, fconds = case['forall']
                 body = [self.cond(c) for c in fconds]
-                conds.append(for_all(self.vars[u], body[0] if len(body) == 1 else and_(*body)))
+                uterm = case.get('forall_expr')
+                universal = self.term(uterm) if uterm else self.vars[u]
+                conds.append(for_all(universal, body[0] if len(body) == 1 else and_(*body)))
             if case.get('entity', len(self.sel) == 1):
                 desc = entity(self.sel[0], *conds)
             else:
